@@ -161,12 +161,19 @@ impl ForwardedModule {
     ) -> Arc<dyn MapView<Value = T>> {
         debug_assert!(safelist.is_none() || blocklist.is_none());
 
-        if prefix.is_none() && safelist.is_none() && blocklist.is_none() {
+        if prefix.is_none() && safelist.is_none() && blocklist.map_or(true, HashSet::is_empty) {
             return map;
         }
 
         if let Some(prefix) = prefix {
             map = Arc::new(PrefixedMapView(map, prefix.to_owned()));
+        }
+
+        // `show` and `hide` name the members as they are visible after prefixing
+        if let Some(safelist) = safelist {
+            map = Arc::new(LimitedMapView::safelist(map, safelist));
+        } else if let Some(blocklist) = blocklist.filter(|blocklist| !blocklist.is_empty()) {
+            map = Arc::new(LimitedMapView::blocklist(map, blocklist));
         }
 
         map
